@@ -70,7 +70,11 @@ def conv(t: Any, src: str) -> Tuple:
     if d == "member_index":
         return ("index", conv(ch[0], src), conv(ch[1], src))
     if d == "member_object":
-        return raw(t, src)
+        inits = ()
+        if len(ch) == 2:
+            fi = ch[1].children
+            inits = tuple((str(fi[i]), conv(fi[i + 1], src)) for i in range(0, len(fi), 2))
+        return ("msg", conv(ch[0], src), inits)
     if d == "literal":
         return ("raw", str(ch[0]), ir.MEMBER)
     if d == "ident":
@@ -78,7 +82,8 @@ def conv(t: Any, src: str) -> Tuple:
     if d == "dot_ident":
         return ("dotvar", str(ch[0]))
     if d == "dot_ident_arg":
-        return raw(t, src)
+        args = list(ch[1].children) if len(ch) == 2 else []
+        return ("dotcall", str(ch[0]), tuple(conv(a, src) for a in args))
     if d == "ident_arg":
         name = str(ch[0])
         args = list(ch[1].children) if len(ch) == 2 else []
